@@ -1,6 +1,8 @@
 package main
 
 import (
+	"os"
+	"time"
 	"fmt"
 	"math/rand"
 	"sort"
@@ -47,10 +49,17 @@ func maxAlloc(re *regexp2.Regexp) int64 {
 	return -1
 }
 
+// patterns whose limit-disabled run times out are judged with a short timeout under each limit
+// (a limit error or a panic comes at once; only runs that would time out anyway are cut short)
+var fastTimeout sync.Map
+
 func compileLimit(src string, opts, limit int) (*regexp2.Regexp, error) {
 	re, err := mon.Compile(src, opts, 0, regexp2.OptionMaxBacktrackingStackSize(limit))
 	if err == nil {
 		re.MatchTimeout = shortTimeout
+		if _, ok := fastTimeout.Load(src); ok && limit >= 0 {
+			re.MatchTimeout = 40 * time.Millisecond
+		}
 	}
 	return re, err
 }
@@ -113,25 +122,55 @@ func callUnder(src string, opts, limit int, runes []rune) (res limRes, re *regex
 }
 
 // limitLaws judges one (pattern, input) over a set of limits.
+// allowNoBase: judge limits although the limit-disabled run times out (only for the fixed
+// families: every limit below the timeout threshold costs a long run).
+var allowNoBase = map[string]bool{}
+
 func limitLaws(src string, opts int, runes []rune, quick bool, st func(string)) (detail, incon string, limitsTried int, errorsSeen int) {
+	t0 := time.Now()
 	base, _, err := callUnder(src, opts, -1, runes)
 	if err != nil {
 		return "", "pattern-rejected", 0, 0
 	}
+	if time.Since(t0) > 60*time.Millisecond && !strings.Contains(base.find+base.boolean+base.str, "error:timeout") {
+		// every limit repeats these calls: a case this slow would take minutes (and sits close to the
+		// timeout, where results flip)
+		return "", "unlimited-run-slow", 0, 0
+	}
 	if base.panicked != "" {
 		return "with the limit disabled: " + base.panicked, "", 0, 0
 	}
+	noBase := false
 	for _, v := range []string{base.find, base.boolean, base.str, base.all, base.repl} {
 		if strings.HasPrefix(v, "error:") {
-			return "", "unlimited-run-" + v, 0, 0
+			if v != "error:timeout" || !allowNoBase[src] {
+				return "", "unlimited-run-" + v, 0, 0
+			}
+			// catastrophic without a limit: there is no result to compare with, but under a limit
+			// the calls must still end in the limit error (or the timeout) without a panic and
+			// without allocating beyond the limit
+			noBase = true
 		}
 	}
-	// what a fresh Regexp answers to the control call
+	if noBase {
+		fastTimeout.Store(src, true)
+	}
+	if noBase && len(runes) > 130 {
+		return "", "unlimited-run-error:timeout", 0, 0
+	}
+	// what a fresh Regexp answers to the control call (and the size its stack starts with)
 	freshCtl, freshOK := "", false
+	initialStack := int64(64)
 	if fresh, _ := compileLimit(src, opts, -1); fresh != nil {
+		none := int64(-1)
+		trackMax.Store(fresh, &none)
 		if want, e2 := fresh.FindStringMatch("ab"); e2 == nil {
 			freshCtl, freshOK = mon.ObsAll(want), true
 		}
+		if a := maxAlloc(fresh); a > 0 {
+			initialStack = a
+		}
+		trackMax.Delete(fresh)
 	}
 	judge := func(L int) (ok bool, success bool, detail string) {
 		res, re, err := callUnder(src, opts, L, runes)
@@ -147,6 +186,14 @@ func limitLaws(src string, opts int, runes []rune, quick bool, st func(string)) 
 		for _, pr := range [][3]string{{"FindRunesMatch", res.find, base.find}, {"MatchRunes", res.boolean, base.boolean}, {"FindStringMatch", res.str, base.str}, {"FindAllStringIndex", res.all, base.all}, {"Replace", res.repl, base.repl}} {
 			switch {
 			case pr[1] == pr[2]:
+			case noBase && pr[1] == "error:timeout":
+				return false, false, ""
+			case noBase && !strings.HasPrefix(pr[1], "error:other"):
+				// nothing to compare with
+				if pr[1] == "error:stacklimit" {
+					success = false
+					errorsSeen++
+				}
 			case pr[1] == "error:stacklimit":
 				success = false
 				errorsSeen++
@@ -178,9 +225,24 @@ func limitLaws(src string, opts int, runes []rune, quick bool, st func(string)) 
 	for k := 64; k <= 16384; k *= 2 {
 		limits[k-1], limits[k], limits[k+1] = true, true, true
 	}
+	// limits a few slots above each size the stack passes through while it doubles (observed in
+	// the limit-disabled run): there a doubling is clipped to a handful of extra slots
+	for sz := base.alloc; sz >= 16; sz /= 2 {
+		for _, d := range []int64{1, 2, 3, 5, 8, 13} {
+			limits[int(sz+d)] = true
+			if !quick {
+				limits[int(2*sz+d)] = true
+			}
+		}
+		if quick && sz < base.alloc/4 {
+			break
+		}
+	}
 	// threshold by bisection (allowed by the monotonicity the property claims; cross-checked below)
 	lo, hi := 0, 1<<20
-	if _, s, d := judge(hi); d != "" {
+	if noBase {
+		// no threshold to look for
+	} else if _, s, d := judge(hi); d != "" {
 		return d, "", limitsTried, errorsSeen
 	} else if s {
 		for lo < hi {
@@ -201,6 +263,16 @@ func limitLaws(src string, opts int, runes []rune, quick bool, st func(string)) 
 			}
 		}
 	}
+	if noBase {
+		// a run without a limit never ends: only the limits at which a doubling is clipped to a few
+		// slots, and a few small ones
+		limits = map[int]bool{0: true, 1: true, 8: true, 64: true, 100: true, 1000: true}
+		for sz := initialStack; sz <= 2100; sz *= 2 {
+			for _, d := range []int64{1, 2, 3, 5, 8, 13} {
+				limits[int(sz+d)] = true
+			}
+		}
+	}
 	var sorted []int
 	for L := range limits {
 		sorted = append(sorted, L)
@@ -208,12 +280,21 @@ func limitLaws(src string, opts int, runes []rune, quick bool, st func(string)) 
 	sort.Ints(sorted)
 	firstSuccess := -1
 	for _, L := range sorted {
+		if noBase && L > 2100 {
+			break
+		}
 		ok, success, d := judge(L)
 		if d != "" {
 			return d, "", limitsTried, errorsSeen
 		}
 		if !ok {
+			if noBase {
+				break // a call ran into the timeout: larger limits only take longer
+			}
 			continue
+		}
+		if noBase {
+			continue // success and failure are not comparable without a base result
 		}
 		if success && firstSuccess < 0 {
 			firstSuccess = L
@@ -227,6 +308,7 @@ func limitLaws(src string, opts int, runes []rune, quick bool, st func(string)) 
 
 func replayC13(w core.Witness) string {
 	installTrackHook()
+	allowNoBase[w.Pattern] = true
 	d, _, _, _ := limitLaws(w.Pattern, w.Options, witnessRunes(w), false, func(string) {})
 	return d
 }
@@ -250,7 +332,10 @@ func runC13(r *core.Run) int {
 	nInputs := r.Pick(3, 5)
 	base := rand.New(rand.NewSource(r.Seed*275604541 + 13)).Int63()
 	fixedRTL := []string{`a*b*c*d*`, `\w*\d*[ab]*x*y*z*`, `(?:a*b*)*c*d*`, `a*?b*?c*?d*?e`, `x(?<=a*b*c*d*x)`, `(?<=(?:a*b*c*){2}d*)e*f*`, `[ab]*[bc]*[cd]*[de]*\b`}
-	fixed := []string{`(?:^){40}a`, `(a|b|c|d|e)*z`, `(?:(?:a|ab)(?:c|bcd))*(?=x)y?`, `((a{1,3}){1,3}){1,3}b`, `(?:a*?b*?c*?)*d`, `(?<=(a|b)*)c+`, `(?>a+|b+)*(?!c)\w+?\d`, `(?:(?:(?:(?:x?){3}){3}){3}){3}y`}
+	fixed := []string{`(?:[ab]*[bc]*[cd]*[de]*[ef]*[fg]*[gh]*[hi]*[ij]*[jk]*[kl]*[lm]*[mn]*[no]*[oa]*x?)*y`, `(?:[ab]*[bc]*[cd]*[da]*x?)*!`, `(?:[ab]*[bc]*[cd]*[da]*x)*`, `(?:[ab]*[bc]*[cd]*[de]*[ef]*[fg]*[gh]*[hi]*[ij]*[jk]*[kl]*[lm]*[mn]*[no]*[oa]*x)*`, `(?:(a)*(b)*(c)*(d)*[ab]*[bc]*[cd]*x)+y?`, `(?:^){40}a`, `(a|b|c|d|e)*z`, `(?:(?:a|ab)(?:c|bcd))*(?=x)y?`, `((a{1,3}){1,3}){1,3}b`, `(?:a*?b*?c*?)*d`, `(?<=(a|b)*)c+`, `(?>a+|b+)*(?!c)\w+?\d`, `(?:(?:(?:(?:x?){3}){3}){3}){3}y`}
+	for _, f := range fixed {
+		allowNoBase[f] = true
+	}
 	r.Parallel(nPat, func(i int, l *core.Local) {
 		rng := rand.New(rand.NewSource(base + int64(i)*1000003))
 		var pc *patCase
@@ -294,11 +379,17 @@ func runC13(r *core.Run) int {
 				inputs = append(inputs, long)
 			}
 		} else {
-			inputs = [][]rune{[]rune("aabbccdd"), []rune("aabbccddxe"), []rune(strings.Repeat("ab", 60) + "cz"), []rune(strings.Repeat("a", 200)), []rune(strings.Repeat("abcd", 50) + "xy1"), []rune("xxxxxxxxxxxxxxxxxxxxxxxxxxxxxxy")}
+			inputs = [][]rune{[]rune(strings.Repeat("abcdx", 4)), []rune(strings.Repeat("abcdefghijklmnox", 8)), []rune(strings.Repeat("abcdx", 40)), []rune("aabbccdd"), []rune("aabbccddxe"), []rune(strings.Repeat("ab", 60) + "cz"), []rune(strings.Repeat("a", 200)), []rune(strings.Repeat("abcd", 50) + "xy1"), []rune("xxxxxxxxxxxxxxxxxxxxxxxxxxxxxxy")}
 		}
 		l.Count("patterns", 1)
 		st := func(k string) { l.Count(k, 1) }
 		var nontriv int64
+		tPat := time.Now()
+		defer func() {
+			if d := time.Since(tPat); d > 8*time.Second && os.Getenv("VERIF_C13_SLOW") != "" {
+				fmt.Fprintf(os.Stderr, "slow C13 pattern (%v): %q opts=%d origin=%s\n", d, pc.src, pc.opts, pc.origin)
+			}
+		}()
 		for _, in := range inputs {
 			if r.Stopped() {
 				return
